@@ -1,5 +1,7 @@
 import RpgpModel.Proto
 import RpgpModel.Stream
+import RpgpModel.Utf8
+import RpgpModel.Canon
 import RpgpModel.Gen.Constants
 namespace Rpgp.Ops.C09
 open Rpgp
@@ -17,6 +19,9 @@ def handle (op : String) (a : Args) : Option String :=
     let blocks := cfbEncBlocks Gen.symEncBufferSize (List.replicate (bs + 2) 0) (List.replicate n 0)
       (List.replicate Gen.mdcLen 0)
     pure s!"ok:{blocks.flatten.length}"
+  | "utf8_literal_accepts" => do
+    let cs ← a.list "chunks"
+    pure (okBool (utf8CheckChunks utf8ValidUpTo [] cs && crlfCheck cs))
   | _ => none
 
 end Rpgp.Ops.C09
